@@ -1179,6 +1179,10 @@ impl CompileState<'_> {
                         if seen_ok_literal {
                             return Err(self.redundant_match_arm_error(v_span));
                         }
+                        if seen_ok_binding {
+                            // An earlier binding already takes every value of this variant.
+                            return Err(self.unreachable_match_arm_error(v_span));
+                        }
                         seen_ok_binding = true;
                     }
                     ExprKind::Ok(_) if seen_ok_binding => {
@@ -1190,6 +1194,10 @@ impl CompileState<'_> {
                     ExprKind::Err(inner) if matches!(inner.inner, ExprKind::Identifier(_)) => {
                         if seen_err_literal {
                             return Err(self.redundant_match_arm_error(v_span));
+                        }
+                        if seen_err_binding {
+                            // An earlier binding already takes every value of this variant.
+                            return Err(self.unreachable_match_arm_error(v_span));
                         }
                         seen_err_binding = true;
                     }
@@ -1204,6 +1212,10 @@ impl CompileState<'_> {
                     {
                         if seen_some_literal {
                             return Err(self.redundant_match_arm_error(v_span));
+                        }
+                        if seen_some_binding {
+                            // An earlier binding already takes every Some value.
+                            return Err(self.unreachable_match_arm_error(v_span));
                         }
                         seen_some_binding = true;
                     }
@@ -1439,13 +1451,17 @@ impl CompileState<'_> {
             false
         };
 
-        let missing_default = default_count == 0
-            && !result_exhaustive
-            && !optional_exhaustive
-            && self
+        // Binding patterns are not values: for result and optional scrutinees
+        // only the per-variant analysis above decides.
+        let exhaustive = match &scrutinee_type.inner {
+            TypeKind::Result(_) => result_exhaustive,
+            TypeKind::Optional(_) => optional_exhaustive,
+            other => self
                 .m
-                .cardinality(&scrutinee_type.inner)
-                .is_none_or(|c| c > all_values.len() as u64);
+                .cardinality(other)
+                .is_some_and(|c| c <= all_values.len() as u64),
+        };
+        let missing_default = default_count == 0 && !exhaustive;
 
         if missing_default {
             return Err(self.err(MissingDefaultPattern(span)));
